@@ -1766,6 +1766,11 @@ func (e *Engine) hookSites(fn *ssa.Function, h *CallHook) int {
 			case *ssa.Defer:
 				cc = &c.Call
 				prefix = "defer "
+			case *ssa.Select:
+				if c.Blocking && h.Callee == "<select>" && h.Ord == 0 {
+					n++
+				}
+				continue
 			default:
 				continue
 			}
